@@ -7,13 +7,13 @@ UF = ["--arrays-uf-always"]
 OBL = []
 
 MODPATH = {
-    "ast.rs": "ast", "ast__sim.rs": "ast::sim", "asm.rs": "asm", "asm__objblock.rs": "asm", "sim__new.rs": "sim", "asm__encoding.rs": "asm::encoding", "err.rs": "err",
+    "ast.rs": "ast", "ast__sim.rs": "ast::sim", "asm.rs": "asm", "asm__objblock.rs": "asm", "sim__new.rs": "sim", "sim__device__timer__seed.rs": "sim::device::timer", "asm__encoding.rs": "asm::encoding", "err.rs": "err",
     "parse.rs": "parse", "parse__lex.rs": "parse::lex", "sim.rs": "sim", "sim__mem.rs": "sim::mem", "sim__mem__copy.rs": "sim::mem", "sim__frame.rs": "sim::frame", "sim__device.rs": "sim::device", "sim__device__poll.rs": "sim::device", "sim__device__h.rs": "sim::device", "sim__frame__h.rs": "sim::frame", "sim__mem__h.rs": "sim::mem",
     "sim__device__timer.rs": "sim::device::timer", "sim__device__keyboard.rs": "sim::device::keyboard", "sim__device__display.rs": "sim::device::display", "sim__debug.rs": "sim::debug", "sim__observer.rs": "sim::observer",
 }
 
 
-MODNAME = {"sim__new.rs": "verif_kani_new", "asm__objblock.rs": "verif_kani_gen::objblock_h", "sim__mem__copy.rs": "verif_kani_copy", "sim__device__poll.rs": "verif_kani_poll", "sim__device__h.rs": "verif_kani_h", "sim__frame__h.rs": "verif_kani_h", "sim__mem__h.rs": "verif_kani_h"}
+MODNAME = {"sim__new.rs": "verif_kani_new", "sim__device__timer__seed.rs": "verif_kani_seed", "asm__objblock.rs": "verif_kani_gen::objblock_h", "sim__mem__copy.rs": "verif_kani_copy", "sim__device__poll.rs": "verif_kani_poll", "sim__device__h.rs": "verif_kani_h", "sim__frame__h.rs": "verif_kani_h", "sim__mem__h.rs": "verif_kani_h"}
 
 
 def K(id, module, harness, props, functions, kind="complete", bound=None, tier="quick", args=None, timeout=900,
@@ -176,6 +176,10 @@ K("K.observer.access_set", "sim__observer.rs", "access_set_leaf", ["C28"], ["Acc
 K("K.observer.map", "sim__observer.rs", "observer_map_two_updates", ["C28"], ["AccessObserver::new", "AccessObserver::update_mem_accesses", "AccessObserver::get_mem_accesses", "AccessObserver::clear"],
   kind="bounded", bound="2 updates", group="obs")
 K("K.observer.take", "sim__observer.rs", "observer_take", ["C28"], ["AccessObserver::take_mem_accesses"], kind="bounded", bound="1 update", group="obs")
+K("K.timer.seed_determines_generator", "sim__device__timer__seed.rs", "seed_determines_generator", ["C34"], ["TimerDevice::new", "<StdRng as SeedableRng>::seed_from_u64 (rand_core's expansion of the u64 seed runs for real)"], kind="bounded",
+  bound="two concrete ranges (5..=5 and 3..=7), one concrete seed; vector, priority and the generator's output words symbolic", group="timerseed", timeout=1800,
+  stubs=["<StdRng as SeedableRng>::from_seed=records the 32 seed bytes, returns a zeroed generator (never consulted)", "<StdRng as RngCore>::next_u32/next_u64=arbitrary words"],
+  assumptions=["StdRng (ChaCha12, crate rand) is deterministic in its seed: the sequence of draws is a function of the seed bytes, the ranges asked for and the order of draws"])
 K("K.timer.sample_range", "sim__device__timer.rs", "sample_range_new", ["C34"], ["SampleRange::new", "<SampleRange as RangeBounds<u32>>::start_bound/end_bound"], group="timer", replay="native")
 
 for h, b in (("keyboard_0", "empty input buffer"), ("keyboard_1", "1 byte waiting"), ("keyboard_2", "2 bytes waiting"), ("keyboard_locked", "buffer lock held by the caller")):
@@ -292,7 +296,7 @@ PROPS = {
  "C29": ("other", "Partial, bounded: MemArray::copy_obj_block (the function that places one block of the image) sets exactly the block's initialized words, marks its reserved words uninitialized and leaves every other word unchanged, incl. blocks that wrap past xFFFF -- for concrete start addresses and shapes (6 obligations), values / old memory / probe symbolic. The constructor new_with_mcr: OS loaded once, every word of the I/O page an initialized zero (symbolic probe, all strategies), with the 64K filler, slice::fill, load_os and FrameStack::new stubbed. load_obj_file's loop over blocks, the external-symbol check and 'a new simulator holds the OS image' are not covered."),
  "C30": ("proof", "reset against new_with_mcr's contract (recording stub): constructor called once with the same flags and the same MCR handle; all architectural state (registers, PC, PSR, saved SP, frame depth, instruction count, memory at a symbolic probe, halt/breakpoint status) is the fresh machine's; device handler moved across; register map kept by content (one concrete mapping, bounded). The constructor body against its own contract (flags and MCR handle as given, counter 0, not halted, I/O page clear; deterministic for the Known strategy) with the 64K filler, slice::fill, load_os, FrameStack::new and rand stubbed."),
  "C32": ("proof", "Port-table representation invariant at symbolic witness ports: dispatch reaches the owner exactly once; add/remove/replace preserve it (device counts bounded); internal registers win over devices (L1, empty and default map); mmap/munmap with concrete addresses incl. a second mapping of an occupied address; the real keyboard and display devices against their register contracts."),
- "C34": ("proof", "Unbounded (Verus): countdown step contract on the verbatim bodies + interval/first-interrupt lemmas by induction. Kani: SampleRange::new leaf; try_generate_time draws inside the configured range (rand's range reduction verified through, four concrete ranges); every device polled exactly once per boundary also with external interrupts present."),
+ "C34": ("proof", "Unbounded (Verus): countdown step contract on the verbatim bodies + interval/first-interrupt lemmas by induction. Kani: SampleRange::new leaf; try_generate_time draws inside the configured range (rand's range reduction verified through, four concrete ranges); every device polled exactly once per boundary also with external interrupts present; a timer constructed with Some(seed) builds its generator from that seed alone (one concrete seed, two concrete ranges) -- that StdRng is deterministic in its seed is assumed."),
  "C35": ("proof", "Complete: 32 loop-free harnesses (N=1..16, signed/unsigned) over the full 16-bit input domain."),
 }
 props = {k: {"level": lv, "explanation": ex, "assumptions": [TRUST]} for k, (lv, ex) in PROPS.items()}
